@@ -93,6 +93,9 @@ func checkC02(r *mon.Run) {
 	}
 	for bi, b := range bases {
 		certs := []c02cert{{"right", b.cs.Cert}, {"unrelated", b.cs.Other}, {"same-issuer-serial-other-key", b.cs.Twin}}
+		for _, fc := range b.cs.TwinForeign {
+			certs = append(certs, c02cert{"same-issuer-serial-" + fc.PublicKeyAlgorithm.String() + "-key", fc})
+		}
 		im, err := refpe.ParseHeaders(b.out)
 		if err != nil {
 			r.Inconclusive("reference cannot read signed base %s: %v", b.name, err)
@@ -284,6 +287,11 @@ func checkC02(r *mon.Run) {
 				r.Violation("C02|interleaved-objects|"+regionKind(im, p, len(b.out)), fmt.Sprintf("a tampered image (byte %d) parsed before the genuine one verified afterwards: %s (base %s)", p, why, b.name),
 					map[string]any{"image_hex": mon.HexN(tam, 80000), "pos": p})
 			}
+		}
+		// (d') data appended behind the certificate table (a payload riding on a signed image)
+		for _, n := range []int{1, 3, 8, 64, 4096} {
+			c02Judge(r, b.name, "appended-behind-table", "after-table", append(append([]byte(nil), b.out...), bytes.Repeat([]byte{0xAB}, n)...), certs, fmt.Sprintf("%d bytes appended to the signed file", n))
+			// … and the same with the directory entry stretched over them
 		}
 		// (e) the untouched image with the wrong certificates
 		c02Judge(r, b.name, "untouched", "-", b.out, certs, "")
